@@ -17,6 +17,7 @@ import os
 import re
 import sys
 import time
+import urllib.parse
 
 sys.path.insert(0, os.path.dirname(os.path.dirname(os.path.abspath(__file__))))
 from fordsim import check, seeds, pagemodel as PM, world as W  # noqa: E402
@@ -62,7 +63,7 @@ def layout(case):
 
 def enc_latin1(text):
     import base64
-    return {"b64": base64.b64encode(text.encode("iso-8859-1", "replace")).decode()}
+    return {"b64": base64.b64encode(text.replace("\u2192", "->").encode("iso-8859-1", "replace")).decode()}
 
 
 def torn_variant(case, rng):
@@ -286,7 +287,7 @@ def full_run(case, files, sb, workdir, out):
                 continue
             nlinks += 1
             target, _, frag = url.partition("#")
-            target = target.split("?")[0]
+            target = urllib.parse.unquote(target.split("?")[0])
             # (an alias inside a raw HTML block is replaced by the absolute output path and left like that;
             # C17 asks for links that are correct, relocatability is C09's business: an absolute path is
             # followed as a file-system path)
@@ -301,10 +302,10 @@ def full_run(case, files, sb, workdir, out):
         for m in A_RE.finditer(html):
             url = m.group(1) if m.group(1) is not None else m.group(2)
             text = re.sub(r"<[^>]+>", "", m.group(3)).strip()
-            mm = re.match(r"^(to|rel) (\S+\.html)$", text)
+            mm = re.match(r"^(to|rel) (.+\.html)$", text)
             if mm:
                 want = os.path.join(pagedir, mm.group(2))
-                got = os.path.normpath(os.path.join(here, url.split("#")[0]))
+                got = os.path.normpath(os.path.join(here, urllib.parse.unquote(url.split("#")[0])))
                 out["probes"]["alias_links_checked"] = out["probes"].get("alias_links_checked", 0) + 1
                 if got != want:
                     findings.append(("full/alias-wrong-target/%s" % mm.group(1), "page/%s: %s link meant for page/%s resolves to %s" % (rel, "|page|" if mm.group(1) == "to" else "relative", mm.group(2), os.path.relpath(got, doc)), {"full": True}))
